@@ -1027,19 +1027,20 @@ Variable m : mdesc.
 Variable h : token -> msgv -> option msgv.
 Variable B : nat.
 Hypothesis Hgen : gen_all s = GOk progs.
-Hypothesis Hrec : forall idx b st0 t, bytes_ok b -> (length b <= B)%nat -> err st0 = None ->
+Variable good : nat -> bool.       (* the message types whose Decode is known to be the reference's *)
+Hypothesis Hrec : forall idx b st0 t, good idx = true -> bytes_ok b -> (length b <= B)%nat -> err st0 = None ->
   let '(st', t') := Dec.loop F (rec idx) (push_state b st0) t in
   match rrec idx b t with Some t'' => err st' = None /\ t' = t'' | None => err st' <> None end.
 
 (* singular message fields: pointer (merge into the existing message or a fresh one), always-present, oneof member *)
-Lemma msg_field_ok idx slot f op :
+Lemma msg_field_ok idx slot f op : good idx = true ->
   f_custom f = CNone -> fty f = TMsg idx -> flabel f <> LRepeated ->
   (foneof f <> None -> i_pointer (field_info s f) = true) ->
   gen_field_decode s (oneof_siblings m f slot) slot f = GOk op ->
   (forall tok t, t_num tok = fnum f -> h tok t = hfield s rrec m slot f tok t) ->
   reader_ok h B (op_reader progs F rec op).
 Proof.
-  intros Hc Ht Hl Hop Hg Hh.
+  intros Hgood Hc Ht Hl Hop Hg Hh.
   pose proof (info_not_repeated s f Hl) as Hrep. pose proof (info_oneof s f) as Hone.
   assert (Hhs : forall tok t, t_num tok = fnum f -> h tok t = _) by (intros tok t E; rewrite (Hh tok t E); apply (hfield_msg s rrec m slot f idx tok t Hc Ht Hrep)).
   clear Hh. unfold gen_field_decode in Hg. rewrite (info_msg s f idx Hc Ht), Hrep, Hone in Hg.
@@ -1063,7 +1064,7 @@ Proof.
     destruct (dec_message F (fnum f) _ st (slot_get (fst t0) slot)) as [st1 v1]. apply Hs.
     - intros b Hbb Hlb. unfold F.
       rewrite (loop_wrap (rec idx) (fun v : val => match v with VMsg (Some m0) => m0 | _ => zero_msgv progs idx end) (fun w => VMsg (Some w)) ltac:(reflexivity) F').
-      specialize (Hrec idx b st (match slot_get (fst t0) slot with VMsg (Some x) => x | _ => zero_msgv progs idx end) Hbb Hlb He).
+      specialize (Hrec idx b st (match slot_get (fst t0) slot with VMsg (Some x) => x | _ => zero_msgv progs idx end) Hgood Hbb Hlb He).
       fold F. destruct (Dec.loop F (rec idx) (push_state b st) _) as [st' w']. destruct (rrec idx b _) as [x|]; [destruct Hrec as [E1 ->]; auto|exact Hrec].
     - intros tok E. rewrite (Hhs tok t E). rewrite Hp. unfold slot_get. rewrite Hn, (zero_agree s progs idx Hgen).
       destruct (t_pay tok); try reflexivity. destruct (rrec idx b _); [|reflexivity]. unfold set_slot. rewrite Hfs, Hsn. reflexivity. }
@@ -1084,7 +1085,7 @@ Proof.
     - intros b Hbb Hlb. unfold F.
       rewrite (loop_wrap (rec idx) (fun v : val => match v with VEmb fs u => (fs, u) | _ => zero_msgv progs idx end) (fun w => VEmb (fst w) (snd w))
                  ltac:(intros [a c]; reflexivity) F').
-      specialize (Hrec idx b st (match slot_get (fst t) slot with VEmb fs u => (fs, u) | _ => zero_msgv progs idx end) Hbb Hlb He).
+      specialize (Hrec idx b st (match slot_get (fst t) slot with VEmb fs u => (fs, u) | _ => zero_msgv progs idx end) Hgood Hbb Hlb He).
       fold F. destruct (Dec.loop F (rec idx) (push_state b st) _) as [st' w']. destruct (rrec idx b _) as [x|]; [destruct Hrec as [E1 ->]; auto|exact Hrec].
     - intros tok E. rewrite (Hhs tok t E). rewrite Hp. unfold slot_get. rewrite (zero_agree s progs idx Hgen), (clear_siblings_none m f slot (fst t) Hno).
       destruct (t_pay tok); try reflexivity. destruct (rrec idx b _); reflexivity. }
@@ -1210,11 +1211,12 @@ Variable h : token -> msgv -> option msgv.
 Variable B : nat.
 Hypothesis Hgen : gen_all s = GOk progs.
 Hypothesis rec_sticky : forall idx, sticky_fn (rec idx).
-Hypothesis Hrec : forall idx b st0 t, bytes_ok b -> (length b <= B)%nat -> err st0 = None ->
+Variable good : nat -> bool.
+Hypothesis Hrec : forall idx b st0 t, good idx = true -> bytes_ok b -> (length b <= B)%nat -> err st0 = None ->
   let '(st', t') := Dec.loop F (rec idx) (push_state b st0) t in
   match rrec idx b t with Some t'' => err st' = None /\ t' = t'' | None => err st' <> None end.
 
-Lemma repmsg_iter idx f (ptr : bool) fuel st l : valid_number f = true ->
+Lemma repmsg_iter idx f (ptr : bool) fuel st l : good idx = true -> valid_number f = true ->
   let fn : dstate -> list val -> dstate * list val :=
     fun c l0 => let '(c', m') := Dec.loop F (rec idx) c (zero_msgv progs idx) in
                 (c', l0 ++ [if ptr then VMsg (Some m') else VEmb (fst m') (snd m')]) in
@@ -1228,7 +1230,7 @@ Lemma repmsg_iter idx f (ptr : bool) fuel st l : valid_number f = true ->
       end
   end.
 Proof.
-  intros Hf fn He Hb HBl Hpf.
+  intros Hgood Hf fn He Hb HBl Hpf.
   assert (Hfn : sticky_fn fn).
   { intros c l0 Hec. unfold fn. pose proof (loop_sticky (rec idx) (rec_sticky idx) F c (zero_msgv progs idx) Hec) as H.
     destruct (Dec.loop F (rec idx) c (zero_msgv progs idx)) as [c' m']. exact H. }
@@ -1238,7 +1240,7 @@ Proof.
     destruct (parse_value f 2 (buf st)) as [[p kk]|] eqn:Ep.
     + destruct Hc as [b [-> [Ec [Hbb Hlb]]]]. rewrite Ec. replace (Z.of_nat kk <? 0) with false by (symmetry; apply Z.ltb_ge; lia).
       rewrite <- (zero_agree s progs idx Hgen).
-      specialize (Hrec idx b st (zero_msgv progs idx) Hbb ltac:(unfold blen in HBl; lia) He).
+      specialize (Hrec idx b st (zero_msgv progs idx) Hgood Hbb ltac:(unfold blen in HBl; lia) He).
       destruct (Dec.loop F (rec idx) (push_state b st) (zero_msgv progs idx)) as [c' m'] eqn:Eloop.
       assert (Efn : fn (push_state b st) l = (c', l ++ [if ptr then VMsg (Some m') else VEmb (fst m') (snd m')])) by (unfold fn; rewrite Eloop; reflexivity).
       rewrite Efn.
@@ -1255,13 +1257,13 @@ Proof.
 Qed.
 
 (* repeated message fields (slices of pointers or of values) *)
-Lemma rep_msg_field_ok idx slot f op :
+Lemma rep_msg_field_ok idx slot f op : good idx = true ->
   f_custom f = CNone -> fty f = TMsg idx -> flabel f = LRepeated -> foneof f = None -> valid_number (fnum f) = true ->
   gen_field_decode s (oneof_siblings m f slot) slot f = GOk op ->
   (forall tok t, t_num tok = fnum f -> h tok t = hfield s rrec m slot f tok t) ->
   reader_ok h B (op_reader progs F rec op).
 Proof.
-  intros Hc Ht Hl Hno Hv Hg Hh.
+  intros Hgood Hc Ht Hl Hno Hv Hg Hh.
   assert (Hrep : i_repeated (field_info s f) = true) by (unfold field_info; rewrite Hl, Ht; reflexivity).
   assert (Hone : i_oneof (field_info s f) = false) by (rewrite info_oneof, Hno; reflexivity).
   assert (Hhs : forall tok t, t_num tok = fnum f -> h tok t = _) by (intros tok t E; rewrite (Hh tok t E); apply (hfield_rep_msg s rrec m slot f idx tok t Hc Ht Hrep Hno)).
@@ -1278,7 +1280,7 @@ Proof.
     specialize (Hl' ltac:(intros tok t0 E; rewrite (Hhs tok t0 E), <- Eptr; reflexivity) ltac:(reflexivity)).
     specialize (Hl' ltac:(intros fuel st0 l0 Hne; destruct fuel; [reflexivity|]; cbn [dec_repeated_message];
                           replace (fnum f =? pf st0) with false by (symmetry; apply Z.eqb_neq; congruence); reflexivity)).
-    specialize (Hl' ltac:(intros fuel st0 l0 He0 Hb0 HB0 Hpf0; apply (repmsg_iter idx (fnum f) ptr fuel st0 l0 Hv He0 Hb0 HB0 Hpf0))).
+    specialize (Hl' ltac:(intros fuel st0 l0 He0 Hb0 HB0 Hpf0; apply (repmsg_iter idx (fnum f) ptr fuel st0 l0 Hgood Hv He0 Hb0 HB0 Hpf0))).
     specialize (Hl' (fst t) (snd t) F' st (as_list (slot_get (fst t) slot)) (fst t) ltac:(intros g; reflexivity) He Hb HB Hpf).
     cbv beta in Hl'. fold F in Hl'.
     destruct (dec_repeated_message F (fnum f) fn st (as_list (slot_get (fst t) slot))) as [st' l]. destruct t as [fs un]. exact Hl'. }
@@ -1821,12 +1823,16 @@ Definition supported (s : schema) (f : fdesc) : Prop :=
 
 Definition supported_schema (s : schema) : Prop := forall m, In m s -> forall f, In f (mfields m) -> supported s f.
 
+(* a set of message types closed under "has a field of type", all of whose members are well formed and supported *)
+Definition good_set (s : schema) (good : nat -> bool) : Prop := forall idx m, good idx = true -> nth_error s idx = Some m ->
+  wf_msg_dec m /\ (forall f, In f (mfields m) -> supported s f) /\ (forall f j, In f (mfields m) -> fty f = TMsg j -> good j = true).
+
 Section TDecInd.
 Variables (s : schema) (progs : list prog) (F' : nat) (B : nat).
 Let F := S F'.
 Hypothesis Hgen : gen_all s = GOk progs.
-Hypothesis Hwf : wf_schema_dec s.
-Hypothesis Hsup : supported_schema s.
+Variable good : nat -> bool.
+Hypothesis Hgood : good_set s good.
 Hypothesis HB : (B + 3 <= F)%nat.
 
 Definition msg_rel (fuel : nat) (idx : nat) : Prop := forall b st0 t, bytes_ok b -> (length b <= B)%nat -> err st0 = None ->
@@ -1836,39 +1842,43 @@ Definition msg_rel (fuel : nat) (idx : nat) : Prop := forall b st0 t, bytes_ok b
   | None => err st' <> None
   end.
 
-Lemma field_contract fuel m : In m s -> (forall idx, msg_rel fuel idx) ->
+Lemma field_contract fuel idx m : good idx = true -> nth_error s idx = Some m -> (forall j, good j = true -> msg_rel fuel j) ->
   forall slot f op, In (slot, f) (number_from 0 (mfields m)) ->
   gen_field_decode s (oneof_siblings m f slot) slot f = GOk op ->
   (forall tok t, t_num tok = fnum f -> apply_token s (ref_decode fuel s) m tok t = hfield s (ref_decode fuel s) m slot f tok t) ->
   reader_ok (apply_token s (ref_decode fuel s) m) B (op_reader progs F (dec_msg fuel progs F) op).
 Proof.
-  intros Hm IH slot f op Hin Hg Hh. pose proof (number_from_In _ _ _ Hin) as Hf.
-  destruct (Hwf m Hm) as [_ Hv]. destruct (Hv f Hf) as [Hvn _].
-  destruct (Hsup m Hm f Hf) as [[Hc [[[k Hk] Hlab]|[[midx [Hty Hlab]]|[kk [vk [Hty Hno]]]]]]|[Hc Hor]].
+  intros Hgi Hm IH slot f op Hin Hg Hh. pose proof (number_from_In _ _ _ Hin) as Hf.
+  destruct (Hgood idx m Hgi Hm) as [[_ Hv] [Hsup Hcl]]. destruct (Hv f Hf) as [Hvn _].
+  assert (IH' : forall j b st0 t, good j = true -> bytes_ok b -> (length b <= B)%nat -> err st0 = None ->
+            let '(st', t') := Dec.loop F (dec_msg fuel progs F j) (push_state b st0) t in
+            match ref_decode fuel s j b t with Some t'' => err st' = None /\ t' = t'' | None => err st' <> None end).
+  { intros j b st0 t Hj. apply (IH j Hj). }
+  destruct (Hsup f Hf) as [[Hc [[[k Hk] Hlab]|[[midx [Hty Hlab]]|[kk [vk [Hty Hno]]]]]]|[Hc Hor]].
   - destruct (flabel f) eqn:El.
     + apply (scalar_like_ok s progs F' _ (ref_decode fuel s) m _ B k slot f op Hc Hk ltac:(rewrite El; discriminate) Hg Hh).
     + apply (scalar_like_ok s progs F' _ (ref_decode fuel s) m _ B k slot f op Hc Hk ltac:(rewrite El; discriminate) Hg Hh).
     + destruct Hlab as [Hl|Hno]; [congruence|].
       apply (rep_scalar_ok s progs F' _ (ref_decode fuel s) m _ B k slot f op Hc Hk El Hno Hvn Hg Hh).
-  - destruct Hlab as [[Hl Hp]|[Hl Hno]].
-    + apply (msg_field_ok s progs F' _ (ref_decode fuel s) m _ B Hgen IH midx slot f op Hc Hty Hl Hp Hg Hh).
-    + apply (rep_msg_field_ok s progs F' _ (ref_decode fuel s) m _ B Hgen (dec_msg_sticky s progs F' Hgen Hwf fuel) IH midx slot f op Hc Hty Hl Hno Hvn Hg Hh).
+  - pose proof (Hcl f midx Hf Hty) as Hgj. destruct Hlab as [[Hl Hp]|[Hl Hno]].
+    + apply (msg_field_ok s progs F' _ (ref_decode fuel s) m _ B Hgen good IH' midx slot f op Hgj Hc Hty Hl Hp Hg Hh).
+    + apply (rep_msg_field_ok s progs F' _ (ref_decode fuel s) m _ B Hgen (dec_msg_sticky_any progs (S F') fuel) good IH' midx slot f op Hgj Hc Hty Hl Hno Hvn Hg Hh).
   - apply (map_field_ok s progs F' _ (ref_decode fuel s) m _ B HB kk vk slot f op Hc Hty Hno Hvn Hg Hh).
   - apply (cast_field_ok s progs F' _ (ref_decode fuel s) m _ B HB slot f op Hc Hvn Hor Hg Hh).
 Qed.
 
-Theorem T_dec_msg : forall fuel idx, msg_rel fuel idx.
+Theorem T_dec_msg : forall fuel idx, good idx = true -> msg_rel fuel idx.
 Proof.
-  induction fuel as [|fuel IH]; intros idx b st0 t Hb Hl He0.
+  induction fuel as [|fuel IH]; intros idx Hgi b st0 t Hb Hl He0.
   - (* no nesting budget: both sides fail *)
     unfold F. cbn [Dec.loop dec_msg ref_decode]. cbn. discriminate.
   - cbn [dec_msg ref_decode].
     destruct (nth_error progs idx) as [p|] eqn:Ep.
     + destruct (gen_all_nth s progs idx p Hgen Ep) as [m [Hm [Hg _]]]. rewrite Hm.
-      destruct (Hwf m (nth_error_In _ _ Hm)) as [Hnd Hf].
+      destruct (Hgood idx m Hgi Hm) as [[Hnd Hf] _].
       pose proof (gen_msg_decode_ok s progs F' (dec_msg fuel progs F) (ref_decode fuel s) m (p_dec p) B Hg Hnd
-                    (fun f H => proj1 (Hf f H)) (fun f H => proj2 (Hf f H)) (dec_msg_sticky s progs F' Hgen Hwf fuel) HB
-                    (field_contract fuel m (nth_error_In _ _ Hm) IH) b st0 t Hb Hl He0) as Hmain.
+                    (fun f H => proj1 (Hf f H)) (fun f H => proj2 (Hf f H)) (dec_msg_sticky_any progs (S F') fuel) HB
+                    (field_contract fuel idx m Hgi Hm IH) b st0 t Hb Hl He0) as Hmain.
       fold F in Hmain. destruct (Dec.loop F (dec_body progs F (dec_msg fuel progs F) (p_dec p)) (push_state b st0) t) as [st' t'].
       unfold fold_opt in Hmain. destruct (tokens b) as [ts|]; exact Hmain.
     + assert (Hs : nth_error s idx = None).
@@ -1876,6 +1886,24 @@ Proof.
       rewrite Hs. unfold F. cbn [Dec.loop]. cbn. discriminate.
 Qed.
 End TDecInd.
+
+(* T_dec for a message type whose closure under "has a field of type" is well formed and supported *)
+Theorem T_dec_good s progs good idx data t0 :
+  gen_all s = GOk progs -> good_set s good -> good idx = true -> bytes_ok data ->
+  let r := pico_unmarshal progs idx data t0 in
+  match ref_decode (S (S (S (length data)))) s idx data t0 with
+  | Some t'' => fst r = None /\ snd r = t''
+  | None => fst r <> None
+  end.
+Proof.
+  intros Hgen Hgood Hgi Hb. cbv zeta. unfold pico_unmarshal.
+  pose proof (T_dec_msg s progs (S (S (length data))) (length data) Hgen good Hgood ltac:(lia) (S (S (S (length data)))) idx Hgi data
+                {| pf := 0; pw := 0; buf := []; err := None |} t0 Hb (le_n _) eq_refl) as H.
+  unfold push_state in H. cbn [err] in H.
+  destruct (Dec.loop (S (S (S (length data)))) (dec_msg (S (S (S (length data)))) progs (S (S (S (length data)))) idx)
+              (next_field 0 {| pf := 0; pw := 0; buf := data; err := None |}) t0) as [st' t'].
+  exact H.
+Qed.
 
 (* T_dec: picobuf.Unmarshal with generated code = the reference decoder, on every input *)
 Theorem T_dec s progs idx data t0 :
@@ -1886,15 +1914,9 @@ Theorem T_dec s progs idx data t0 :
   | None => fst r <> None
   end.
 Proof.
-  intros Hgen Hwf Hsup Hb. cbv zeta. unfold pico_unmarshal.
-  pose proof (T_dec_msg s progs (S (S (length data))) (length data) Hgen Hwf Hsup ltac:(lia) (S (S (S (length data)))) idx data
-                {| pf := 0; pw := 0; buf := []; err := None |} t0 Hb (le_n _) eq_refl) as H.
-  unfold push_state in H. cbn [err] in H.
-  destruct (Dec.loop (S (S (S (length data)))) (dec_msg (S (S (S (length data)))) progs (S (S (S (length data)))) idx)
-              (next_field 0 {| pf := 0; pw := 0; buf := data; err := None |}) t0) as [st' t'].
-  exact H.
+  intros Hgen Hwf Hsup Hb. apply (T_dec_good s progs (fun _ => true) idx data t0 Hgen); [|reflexivity|exact Hb].
+  intros j m _ Hm. pose proof (nth_error_In _ _ Hm) as Hin. split; [apply Hwf, Hin|]. split; [intros f Hf; apply (Hsup m Hin f Hf)|reflexivity].
 Qed.
-
 
 (* ---------------------------------------------------------------- decidable side conditions *)
 Definition custom_eqb (a b : custom) : bool :=
@@ -1969,3 +1991,48 @@ Corollary T_dec_b s progs idx data t0 :
   | None => fst r <> None
   end.
 Proof. intros Hgen Ha Hb. destruct (tdec_applies_spec s Ha) as [Hwf Hsup]. apply T_dec; assumption. Qed.
+
+(* ---------------------------------------------------------------- applicability per message type (closure under field types) *)
+Definition msg_targets (m : mdesc) : list nat := flat_map (fun f => match fty f with TMsg j => [j] | _ => [] end) (mfields m).
+Definition nmem (j : nat) (l : list nat) : bool := existsb (Nat.eqb j) l.
+Definition nunion (a b : list nat) : list nat := fold_left (fun acc j => if nmem j acc then acc else acc ++ [j]) b a.
+Fixpoint closure (n : nat) (s : schema) (acc : list nat) : list nat :=
+  match n with
+  | O => acc
+  | S n' => closure n' s (nunion acc (flat_map (fun j => match nth_error s j with Some m => msg_targets m | None => [] end) acc))
+  end.
+Definition reach (s : schema) (idx : nat) : list nat := closure (length s) s [idx].
+Definition tdec_applies_at (s : schema) (idx : nat) : bool :=
+  let set := reach s idx in
+  nmem idx set &&
+  forallb (fun j => match nth_error s j with
+                    | Some m => wf_msg_dec_b m && forallb (supported_b s) (mfields m) && forallb (fun t => nmem t set) (msg_targets m)
+                    | None => true
+                    end) set.
+
+Lemma nmem_In j l : nmem j l = true -> In j l.
+Proof. unfold nmem. intros H. apply existsb_exists in H. destruct H as [x [Hx E]]. apply Nat.eqb_eq in E. subst. exact Hx. Qed.
+
+Lemma tdec_applies_at_spec s idx : tdec_applies_at s idx = true ->
+  good_set s (fun j => nmem j (reach s idx)) /\ nmem idx (reach s idx) = true.
+Proof.
+  unfold tdec_applies_at. intros H. apply andb_true_iff in H. destruct H as [Hi H]. split; [|exact Hi].
+  rewrite forallb_forall in H. intros j m Hj Hm. specialize (H j (nmem_In _ _ Hj)). rewrite Hm in H.
+  apply andb_true_iff in H. destruct H as [H Hcl]. apply andb_true_iff in H. destruct H as [Hw Hs].
+  split; [|split].
+  - unfold wf_msg_dec_b in Hw. apply andb_true_iff in Hw. destruct Hw as [H1 H2]. split; [apply nodup_z_spec, H1|].
+    rewrite forallb_forall in H2. intros f Hf. specialize (H2 f Hf). apply andb_true_iff in H2. destruct H2 as [Hv Hc].
+    split; [exact Hv|]. intros E. rewrite E in Hc. discriminate Hc.
+  - rewrite forallb_forall in Hs. intros f Hf. apply supported_b_spec, Hs, Hf.
+  - rewrite forallb_forall in Hcl. intros f t Hf Ht. apply Hcl. unfold msg_targets. apply in_flat_map. exists f. split; [exact Hf|]. rewrite Ht. left. reflexivity.
+Qed.
+
+(* T_dec with a computable, per-message applicability test: only the message types reachable from idx matter *)
+Corollary T_dec_at s progs idx data t0 :
+  gen_all s = GOk progs -> tdec_applies_at s idx = true -> bytes_ok data ->
+  let r := pico_unmarshal progs idx data t0 in
+  match ref_decode (S (S (S (length data)))) s idx data t0 with
+  | Some t'' => fst r = None /\ snd r = t''
+  | None => fst r <> None
+  end.
+Proof. intros Hgen Ha Hb. destruct (tdec_applies_at_spec s idx Ha) as [Hg Hi]. apply (T_dec_good s progs _ idx data t0 Hgen Hg Hi Hb). Qed.
